@@ -14,7 +14,7 @@ def run(ctx):
             raise vlib.ToolError(f"TLC failed on Discovery.tla: {r['errors'][:2]}")
     s = vlib.harness(ctx, "discovery_replay", [r["out"]], timeout=1800)
     os.remove(r["out"])
-    if s["extra"]["workspaces"] < 6000 or s["extra"]["cross_compile_rows_for_this_host"] < 6:
+    if s["extra"]["workspaces"] < 30000 or s["extra"]["cross_compile_rows_for_this_host"] < 6:
         raise vlib.ToolError(f"too few cases: {s['extra']}")
     vlib.take_summary(ctx, s, "discovery_replay")
     ctx.add("evaluations", s["evaluations"])
@@ -22,8 +22,8 @@ def run(ctx):
     ctx.cov.update(s["extra"])
     ctx.assumptions += ["HOME / XDG_CONFIG_HOME point to an empty directory so that no global git ignore file takes part",
                         "only the rows of the cross-compile table for the host this runs on can be executed; the others are checked inside the specification only"]
-    return vlib.finish(ctx, rule="TLC proves walk+filters = declarative definition for all 5^5 x 2 workspaces (5 positions: plain, nested in another "
-                       "buildpack, under a hidden directory, matched by .ignore, matched by .gitignore with/without a git repository; contents: "
+    return vlib.finish(ctx, rule="TLC proves walk+filters = declarative definition for all 5^6 x 2 workspaces (6 positions: plain, nested in another "
+                       "buildpack, under a hidden directory, matched by .ignore, matched by .gitignore with/without a git repository, a symlink to a directory outside the tree; contents: "
                        "absent, libcnb.rs, other component, composite, malformed descriptor) and states the cross-compile table with three laws; "
                        "every workspace is materialised and walked by the real functions; the table rows of this host are evaluated with the "
                        "compiler present and absent on PATH", exhaustive=True)
